@@ -95,8 +95,8 @@ def jobs(tier):
                           members=[[True]] * 11, cache=1))
     if thorough:
         add('io', dict(kind='Union', d=2, unit=True,
-                       members=['ell', [True, False]], cache=1, unroll=2),
-            block=1, max_paths=20000)
+                       members=[[True, False], [True, False]], cache=1,
+                       unroll=2), block=1, max_paths=20000)
         add('io', dict(kind='NautilusBound', d=2, n_neural=1, n_net=1,
                        members=[[True, False]], cache=1, unroll=5,
                        periodic=[0]), block=B, max_paths=30000)
